@@ -90,7 +90,7 @@ def ch_segidx(ctx) -> Channel:
         "non-trivial = loop count >= 1 or irregular durations; distinct by (layout, timecode)"))
     rng = ctx.rng("segidx")
     cases = []
-    for _ in range(ctx.scale(250, 4000)):
+    for _ in range(ctx.scale(250, 20000)):
         lay = segpure.gen_layout(rng)
         _, rep, _ = segpure.make_objects(lay, "live")
         for g in positions(rng, lay):
@@ -134,7 +134,7 @@ def ch_timeline(ctx) -> Channel:
         "non-trivial = the window crosses a loop boundary or durations are irregular"))
     rng = ctx.rng("timeline")
     cases, lines = [], []
-    for _ in range(ctx.scale(200, 3000)):
+    for _ in range(ctx.scale(200, 12000)):
         lay = segpure.gen_layout(rng)
         mode = "vod" if rng.random() < .15 else "live"
         if mode == "vod":
@@ -276,7 +276,7 @@ def ch_segserve(ctx) -> Channel:
     leeway_us = int(OptionsRepository.get_default_options().leeway) * 10 ** 6
     lines, recs = [], []
     with appboot.Clock("2023-01-01T00:00:00Z") as clock:
-        for stream, url, now in e2e_cases(ctx, rng, ctx.scale(16, 120)):
+        for stream, url, now in e2e_cases(ctx, rng, ctx.scale(16, 500)):
             trk = segchecks.tracks(app, stream)
             mpd, status, fetches = segchecks.walk_manifest(app, client, clock, stream, url, now, rng,
                                                            per_rep=ctx.scale(6, 14), want_init=True)
